@@ -71,6 +71,16 @@ CLAIMED["C19"] = ("Theorem C19_names_distinct (coq/Properties/C19.v): for any nu
                   "handed out are pairwise distinct and begin with the requested prefix, given distinct uuid4() values (oracle). "
                   "Sequential histories are compared character by character with the model; real threads are run per check.",
                   "DESIGN.md §4 C19")
+CLAIMED["C10"] = ("Theorems C10_* (coq/Properties/C10.v): over any history of attach_payload / execute events on trees sharing "
+                  "materialization nodes, a payload once present is never replaced or cleared, each materialization's upstream is "
+                  "evaluated at most once, later evaluations return the cached rows, and attachment to a non-marker or to a marker "
+                  "with a payload raises TypeError. Real histories over shared node objects (payload identities, leaf iteration "
+                  "counts) are compared with the model per run. Processor histories are C07's.", "DESIGN.md §4 C10")
+CLAIMED["C18"] = ("Theorems C18_* (coq/Properties/C18.v) over a cost model of execute() and the RowIterable classes: lazy trees start "
+                  "no leaf iteration at execute time and at most one per leaf occurrence per full iteration; for every tree, "
+                  "execute plus one iteration touch each leaf occurrence at most once; results of eager operations never "
+                  "re-iterate upstream. Counting leaf payloads validate the cost model (as an upper bound) on the real engine. "
+                  "Partial by nature: generator/iterator semantics of CPython is an oracle.", "DESIGN.md §4 C18")
 NOT_APPLICABLE = {}
 
 
